@@ -88,6 +88,7 @@ struct ValueGen {
         add("nul", Node::mk(Node::Null));
         add("html", Node::mks(A("<a href=\"x\">&'</a>")));
         add("zero", Node::mku(0));
+        if (!as_array && r.chance(1, 2)) n.get_or_add(A("k]")) = scalar(); // a key that ends like an index suffix
         add("msg", Node::mks(A(r.chance(1, 2) ? "Hi {0}, {1} and {2}{0}." : "{1}{9}{0} {x} {} {10} {0")));
         {
             Node   list = Node::mk(Node::Array);
@@ -229,7 +230,12 @@ struct TemplateGen {
                 return loop_vars[i] + "[" + k[r.below(5)] + "]";
             }
             if (loop_kind[i] == 2 && r.chance(1, 2)) return loop_vars[i] + "[" + std::to_string(r.below(3)) + "]";
+            if (r.chance(1, 16)) return loop_vars[i] + "]"; // an index suffix without its prefix
             return loop_vars[i];
+        }
+        if (r.chance(1, 24)) {
+            static const char *odd[] = {"k]", "k]]", "[k]", "k[", "k][", "]", "[", "[]", "k[]", "list[]", "list[0", "list[0]]", "name[0][", "nest[g0]["};
+            return odd[r.below(14)];
         }
         switch (r.below(12)) {
             case 0: return top("name");
